@@ -90,18 +90,6 @@ Filter(ds, cond, env) ==
     IN  IF \E r \in ds.rows : IsErr(vals[r]) THEN E("runtime")
         ELSE [comps |-> ds.comps, rows |-> { r \in ds.rows : vals[r] = T }]
 
-\* items: sequence of [name, role, expr]; every expression sees the components of the operand
-Calc(ds, items, env) ==
-    LET idx == DOMAIN items
-        newNames == { items[i].name : i \in idx }
-        tenv == TEnv(ds, env)
-        newComp(i) == Comp(items[i].name, items[i].role, TypeC(items[i].expr, tenv))
-        item(n) == CHOOSE i \in idx : items[i].name = n
-    IN  RaiseDS([comps |-> { c \in ds.comps : c.n \notin newNames } \cup { newComp(i) : i \in idx },
-                 rows |-> { [x \in AllNames(ds) \cup newNames |->
-                               IF x \in newNames THEN EvalC(items[item(x)].expr, r, env) ELSE r[x]]
-                            : r \in ds.rows }])
-
 Keep(ds, names) ==
     LET k == IdsOf(ds) \cup ViralOf(ds) \cup names
     IN  [comps |-> { c \in ds.comps : c.n \in k }, rows |-> { Rst(r, k) : r \in ds.rows }]
@@ -181,6 +169,78 @@ AggDS(op, ds, mode, names, having, env) ==
                    \cup (IF op = "count" THEN { Comp("int_var", "M", "Integer") }
                          ELSE { Comp(c.n, "M", AggType(op, c.t)) : c \in { x \in ds.comps : x.r = "M" } }),
          rows |-> { [x \in gids \cup outM |-> IF x \in gids THEN g[x] ELSE val(g, x)] : g \in { h \in gs : keepG(h) } }]
+
+
+-----------------------------------------------------------------------------
+(* Analytic (window) functions (C06).  t: [op, part: seq of names, order: seq of <<name, dir>>, frame, params]     *)
+(* frame = <<>> (none) or <<[kind: "rows"|"range", lo: bound, hi: bound]>>, bound = [n, d] with d in               *)
+(* "preceding" "following" "current", n = -1 for unbounded.  The ordering is total (no ties) by construction of     *)
+(* the generators, as the property requires.                                                                        *)
+PartitionOf(ds, t, r) == { q \in ds.rows : \A i \in DOMAIN t.part : q[t.part[i]] = r[t.part[i]] }
+\* q strictly before r in the requested order
+RECURSIVE Before(_, _, _, _)
+Before(t, q, r, i) == IF i > Len(t.order) THEN FALSE
+                      ELSE LET c == Cmp(q[t.order[i][1]], r[t.order[i][1]])
+                               d == IF t.order[i][2] = "desc" THEN -c ELSE c
+                           IN  IF d = -1 THEN TRUE ELSE IF d = 1 THEN FALSE ELSE Before(t, q, r, i + 1)
+PosIn(t, part, r) == Cardinality({ q \in part : Before(t, q, r, 1) }) + 1
+RowAt(t, part, p) == CHOOSE q \in part : PosIn(t, part, q) = p
+Off(b, sign) == IF b.d = "current" THEN 0 ELSE IF b.d = "preceding" THEN -b.n ELSE b.n
+FrameRows(t, part, r) ==
+    IF t.frame = <<>> THEN part
+    ELSE LET f == t.frame[1] p == PosIn(t, part, r) n == Cardinality(part)
+         IN  IF f.kind = "rows"
+             THEN LET lo == IF f.lo.n = -1 THEN 1 ELSE p + Off(f.lo, 1)
+                      hi == IF f.hi.n = -1 THEN n ELSE p + Off(f.hi, 1)
+                  IN  { q \in part : PosIn(t, part, q) >= lo /\ PosIn(t, part, q) <= hi }
+             ELSE \* range: by the value of the (single, Integer) order key; descending order mirrors the offsets
+                  LET k == t.order[1][1] desc == t.order[1][2] = "desc"
+                      v(q) == IF desc THEN -(q[k][2]) ELSE q[k][2]
+                      lo == IF f.lo.n = -1 THEN -1000000 ELSE v(r) + Off(f.lo, 1)
+                      hi == IF f.hi.n = -1 THEN 1000000 ELSE v(r) + Off(f.hi, 1)
+                  IN  { q \in part : v(q) >= lo /\ v(q) <= hi }
+AnType(op, ty) == CASE op \in {"count", "rank"} -> "Integer"
+                    [] op \in {"sum", "min", "max", "first_value", "last_value", "lag", "lead"} -> ty
+                    [] OTHER -> "Number"
+\* value of the analytic function for datapoint r and measure m of dataset ds
+AnValue(ds, t, r, m) ==
+    LET part == PartitionOf(ds, t, r)
+        fr == FrameRows(t, part, r)
+        p == PosIn(t, part, r)
+        n == Cardinality(part)
+    IN  CASE t.op \in {"sum", "avg", "count", "min", "max", "median", "stddev_pop", "stddev_samp", "var_pop", "var_samp"} ->
+               (IF t.op = "count" THEN I(Cardinality(NonNullRows(fr, m))) ELSE AggValue(t.op, fr, m, TypeOfComp(ds, m)))
+          [] t.op = "first_value" -> IF fr = {} THEN Null ELSE (CHOOSE q \in fr : \A z \in fr : PosIn(t, part, q) <= PosIn(t, part, z))[m]
+          [] t.op = "last_value" -> IF fr = {} THEN Null ELSE (CHOOSE q \in fr : \A z \in fr : PosIn(t, part, q) >= PosIn(t, part, z))[m]
+          [] t.op = "lag" -> IF p - t.params[1][2] >= 1 THEN RowAt(t, part, p - t.params[1][2])[m] ELSE (IF Len(t.params) > 1 THEN t.params[2] ELSE Null)
+          [] t.op = "lead" -> IF p + t.params[1][2] <= n THEN RowAt(t, part, p + t.params[1][2])[m] ELSE (IF Len(t.params) > 1 THEN t.params[2] ELSE Null)
+          [] t.op = "rank" -> I(p)
+          [] t.op = "ratio_to_report" ->
+               LET tot == AggValue("sum", part, m, "Number")
+               IN  IF IsNull(r[m]) THEN Null ELSE IF IsNull(tot) THEN Null ELSE DivV(r[m], tot)
+\* dataset level: the function is applied to every measure
+AnDS(ds, t) ==
+    LET keep == KeptUnderOp(ds)
+    IN  RaiseDS([comps |-> { IF c.r = "M" THEN Comp(c.n, "M", AnType(t.op, c.t)) ELSE c : c \in keep },
+                 rows |-> { [x \in { c.n : c \in keep } |-> IF CompOf(ds, x).r = "M" THEN AnValue(ds, t, r, x) ELSE r[x]] : r \in ds.rows }])
+
+\* items: sequence of [name, role, expr]; every expression sees the components of the operand
+Calc(ds, items, env) ==
+    LET idx == DOMAIN items
+        newNames == { items[i].name : i \in idx }
+        tenv == TEnv(ds, env)
+        isAn(i) == items[i].expr.k = "an"
+        newComp(i) == Comp(items[i].name, items[i].role,
+                           IF isAn(i) THEN AnType(items[i].expr.op, IF items[i].expr.op = "rank" THEN "Integer" ELSE tenv[items[i].expr.x.name])
+                           ELSE TypeC(items[i].expr, tenv))
+        item(n) == CHOOSE i \in idx : items[i].name = n
+        val(i, r) == IF isAn(i) THEN AnValue(ds, items[i].expr, r, IF items[i].expr.op = "rank" THEN "" ELSE items[i].expr.x.name)
+                     ELSE EvalC(items[i].expr, r, env)
+    IN  RaiseDS([comps |-> { c \in ds.comps : c.n \notin newNames } \cup { newComp(i) : i \in idx },
+                 rows |-> { [x \in AllNames(ds) \cup newNames |->
+                               IF x \in newNames THEN val(item(x), r) ELSE r[x]]
+                            : r \in ds.rows }])
+
 
 -----------------------------------------------------------------------------
 (* Set operators over a sequence of structurally equal datasets *)
@@ -328,6 +388,8 @@ EvalD(t, env) ==
                            IF t.having = <<>> THEN <<>>
                            ELSE <<[g \in Groups(x, GroupIds(x, t.mode, Rng(t.group))) |->
                                      EvalH(t.having[1], GroupRows(x, GroupIds(x, t.mode, Rng(t.group)), g), x)]>>, env)
+      [] t.k = "an" ->
+            LET x == EvalD(t.x, env) IN IF IsE(x) THEN x ELSE AnDS(x, t)
       [] t.k = "join" ->
             LET xs == [i \in DOMAIN t.ops |-> [ds |-> EvalD(t.ops[i].t, env), alias |-> t.ops[i].a]]
             IN  IF \E i \in DOMAIN xs : IsE(xs[i].ds) THEN xs[CHOOSE i \in DOMAIN xs : IsE(xs[i].ds)].ds
